@@ -237,7 +237,8 @@ PROPS["C09"] = dict(
     rule=("rapid draws the probe and two histories. Non-trivial: a history contains a record longer than the probe, or of another format, or a "
           "colored record of another severity; distinct = (format, severity, named, caller, class set, lengths of both histories)."),
     assumptions=["attributes are rebuilt from the same description for every emission (the encoder sorts argument slices in place)"],
-    stages=[dict(name="history", run="^TestHistoryIndependence$", quick=8000, thorough=400000, shards=16, timeout_thorough=3000)],
+    stages=[dict(name="history", run="^TestHistoryIndependence$", quick=8000, thorough=400000, shards=16, timeout_thorough=3000),
+            dict(name="registration", run="^TestRegistrationHistory$", quick=2000, thorough=100000, shards=8, timeout_thorough=3000)],
 )
 
 PROPS["C11"] = dict(
